@@ -179,7 +179,8 @@ def build_pptx(sc):
         pics, rels = [], []
         for j, a in enumerate(anchors, start=1):
             tg, ext = target_of(a, "ppt/slides", "ppt/media")
-            rels.append((f"rId{j}", IMG_T, tg, ext))
+            if a.kind != "dangling":
+                rels.append((f"rId{j}", IMG_T, tg, ext))
             pics.append(f'<p:pic><p:nvPicPr><p:cNvPr id="{j + 1}" name="Pic {j}" descr="d{j}"/><p:cNvPicPr/><p:nvPr/></p:nvPicPr>'
                         f'<p:blipFill><a:blip r:embed="rId{j}"/></p:blipFill>'
                         f'<p:spPr><a:xfrm><a:off x="{j * 1000}" y="{j * 1000}"/><a:ext cx="95250" cy="190500"/></a:xfrm></p:spPr></p:pic>')
@@ -203,7 +204,8 @@ def build_docx(sc):
         for a in anchors:
             j += 1
             tg, ext = target_of(a, "word", "word/media")
-            rels.append((f"rId{j}", IMG_T, tg, ext))
+            if a.kind != "dangling":
+                rels.append((f"rId{j}", IMG_T, tg, ext))
             paras.append(f'<w:p><w:r><w:drawing><wp:inline><wp:extent cx="95250" cy="190500"/><a:graphic><a:graphicData>'
                          f'<pic:pic><pic:nvPicPr><pic:cNvPr id="{j}" name="Pic {j}" descr="d{j}"/></pic:nvPicPr>'
                          f'<pic:blipFill><a:blip r:embed="rId{j}"/></pic:blipFill></pic:pic></a:graphicData></a:graphic></wp:inline></w:drawing></w:r></w:p>')
@@ -236,7 +238,8 @@ def build_xlsx(sc):
             rels, pics = [], []
             for j, a in enumerate(anchors, start=1):
                 tg, ext = target_of(a, "xl/drawings", "xl/media")
-                rels.append((f"rId{j}", IMG_T, tg, ext))
+                if a.kind != "dangling":
+                    rels.append((f"rId{j}", IMG_T, tg, ext))
                 pics.append(f'<xdr:oneCellAnchor><xdr:from><xdr:col>{j}</xdr:col><xdr:colOff>0</xdr:colOff><xdr:row>{j}</xdr:row><xdr:rowOff>0</xdr:rowOff></xdr:from>'
                             f'<xdr:pic><xdr:nvPicPr><xdr:cNvPr id="{j}" name="Pic {j}" descr="d{j}"/><xdr:cNvPicPr/></xdr:nvPicPr>'
                             f'<xdr:blipFill><a:blip r:embed="rId{j}"/></xdr:blipFill><xdr:spPr/></xdr:pic><xdr:clientData/></xdr:oneCellAnchor>')
@@ -918,6 +921,11 @@ def witness(kind, fmt):
                     "expected": "images numbered in document order: a.png = 1, b.gif = 2",
                     "observed": [("a.png" if o[0] == A else "b.gif" if o[0] == B else "?", o[2].get("image_number")) for o in obs]}
         return None
+    if kind == "dangling":
+        # unit 2 places a picture whose relationship id exists only in the relationship part of unit 1
+        sc = Scenario(fmt, [[Anchor(f"{md}/a.png")], [Anchor(f"{md}/a.png", "relative", "dangling")], [Anchor(f"{md}/b.gif")]],
+                      {f"{md}/a.png": A, f"{md}/b.gif": B}, note="the picture on unit 2 uses an r:embed id that only the relationship part of unit 1 defines")
+        return first_failure([sc], ("no-foreign", "bytes", "unit", "numbering") if fmt != "pptx" else ("no-foreign", "bytes", "unit"))
     if kind == "odf-dot-href":
         return first_failure([simple(fmt, ["dot"], 1, 1)], ("resolution",))
     if kind == "resolution":
@@ -963,6 +971,8 @@ def search(ob, wit=None):
         return check_resolver("_normalize_relative_path") or witness("resolution", "pptx")
     if "_resolve_drawing_path" in ob:
         return check_resolver("_resolve_drawing_path")
+    if "lookup-table-scope" in ob:
+        return witness("dangling", fmt)
     if "/resolution#" in ob:
         if fmt == "xlsx":
             return witness("resolution", "xlsx") or check_resolver("_resolve_image_path")
